@@ -20,6 +20,7 @@ class C01Spec(Spec):
     prop = PROP
     invariants = INVARIANTS
     churn_share = 0.4          # share of leader-churn runs (sched.apply_churn); 0 in specs that build on this draw
+    cb_raise_share = 0.17
     guide_share = 0.25         # share of the churn runs that start with the guided late-acknowledgement schedule
 
     def draw(self, rng, tier='quick'):
@@ -40,6 +41,8 @@ class C01Spec(Spec):
         s['w_stall'] = rng.choice([0.0, 0.01])
         s['w_sub'] = rng.choice([0.2, 0.35, 0.8])
         s['steps'] = 8000 if tier == 'thorough' else 5000
+        # one run in six: some of the application's callbacks raise after they were called
+        cfg['cb_raise'] = rng.random() < self.cb_raise_share
         s['max_subs'] = 250 if tier == 'thorough' else 150
         if self.churn_share and rng.random() < self.churn_share:
             apply_churn(rng, cfg)
